@@ -1,7 +1,603 @@
+/-
+  Property C11: the page DOM lists every page once with correctly inherited resources.
+  Theorems about the model `Parsley.PageDom` (Model/PageDom.lean) of the FIXED to_page_dom.
+-/
 import Parsley.Model.PageDom
 import Parsley.Spec.PageTree
 namespace Parsley.C11
 open Parsley Parsley.Obj Parsley.PageDom
 
-theorem resolve_fuel_sufficient : True := trivial
+/-! ## A. measure: definitions not yet in a followed / examined set -/
+
+def defIds (defs : Defs) : List ObjId := defs.map (·.1)
+
+/-- number of bindings of `defs` whose identifier is not in `S` -/
+def unseen (defs : Defs) (S : List ObjId) : Nat :=
+  ((defIds defs).filter fun i => !S.contains i).length
+
+theorem lookup_some_mem {defs : Defs} {id : ObjId} {o : Obj} (h : lookup defs id = some o) :
+    id ∈ defIds defs := by
+  induction defs with
+  | nil => simp [lookup] at h
+  | cons e t ih =>
+    obtain ⟨k, v⟩ := e
+    simp only [lookup] at h
+    by_cases hk : (k == id) = true
+    · have : k = id := by simpa using hk
+      simp [defIds, this]
+    · simp [hk] at h
+      have := ih h
+      simp [defIds] at this ⊢
+      exact Or.inr this
+
+theorem filter_len_mono {α} (p q : α → Bool) (hpq : ∀ x, p x = true → q x = true) (l : List α) :
+    (l.filter p).length ≤ (l.filter q).length := by
+  induction l with
+  | nil => simp
+  | cons x t ih =>
+    simp only [List.filter_cons]
+    by_cases hp : p x = true
+    · have := hpq x hp
+      simp [hp, this]; exact ih
+    · by_cases hq : q x = true
+      · simp [hp, hq]; omega
+      · simp [hp, hq]; exact ih
+
+theorem filter_len_lt {α} (p q : α → Bool) (hpq : ∀ x, p x = true → q x = true) (l : List α)
+    (a : α) (ha : a ∈ l) (hqa : q a = true) (hpa : p a = false) :
+    (l.filter p).length < (l.filter q).length := by
+  induction l with
+  | nil => simp at ha
+  | cons x t ih =>
+    simp only [List.filter_cons]
+    have hm := filter_len_mono p q hpq t
+    by_cases hxa : x = a
+    · subst hxa
+      simp [hpa, hqa]; omega
+    · have ha' : a ∈ t := by
+        cases ha with
+        | head => exact absurd rfl hxa
+        | tail _ h => exact h
+      have := ih ha'
+      by_cases hp : p x = true
+      · have := hpq x hp
+        simp [hp, this]; omega
+      · by_cases hq : q x = true
+        · simp [hp, hq]; omega
+        · simp [hp, hq]; omega
+
+theorem unseen_cons_lt {defs : Defs} {id : ObjId} {S : List ObjId} (hm : id ∈ defIds defs)
+    (hs : S.contains id = false) : unseen defs (id :: S) < unseen defs S := by
+  unfold unseen
+  refine filter_len_lt _ _ ?_ _ id hm ?_ ?_
+  · intro x hx
+    simp only [List.contains_cons, Bool.not_eq_true', Bool.or_eq_false_iff, Bool.not_eq_eq_eq_not, Bool.not_true] at hx ⊢
+    simp_all
+  · have : id ∉ S := by simpa using hs
+    simp [this]
+  · simp
+
+theorem unseen_le (defs : Defs) (S : List ObjId) : unseen defs S ≤ defs.length := by
+  unfold unseen defIds
+  calc _ ≤ (defs.map (·.1)).length := List.length_filter_le _ _
+    _ = defs.length := by simp
+
+/-! ## B. resolve_chain terminates within |defs| hops -/
+
+theorem resolveLoop_ne_panic (defs : Defs) : ∀ (fuel : Nat) (followed : List ObjId) (src : Src) (o : Obj) (p : String),
+    unseen defs followed < fuel → resolveLoop defs fuel followed src o ≠ .panic p := by
+  intro fuel
+  induction fuel with
+  | zero => intro _ _ _ _ h; omega
+  | succ f ih =>
+    intro followed src o p h
+    unfold resolveLoop
+    split
+    · rename_i n g
+      split
+      · simp
+      · rename_i hc
+        split
+        · simp
+        · rename_i o' hl
+          have hc' : followed.contains (n, g) = false := by simpa using hc
+          have := unseen_cons_lt (lookup_some_mem hl) hc'
+          exact ih _ _ _ _ (by omega)
+    · simp
+
+theorem resolveLoop_ne_err (defs : Defs) : ∀ (fuel : Nat) (followed : List ObjId) (src : Src) (o : Obj) (e : DomErr),
+    resolveLoop defs fuel followed src o ≠ .err e := by
+  intro fuel
+  induction fuel with
+  | zero => intro _ _ _ _; simp [resolveLoop]
+  | succ f ih =>
+    intro followed src o e
+    unfold resolveLoop
+    split
+    · split
+      · simp
+      · split
+        · simp
+        · exact ih _ _ _ _
+    · simp
+
+/-- the result does not depend on the fuel once it exceeds the number of unfollowed definitions -/
+theorem resolveLoop_fuel_indep (defs : Defs) : ∀ (f1 f2 : Nat) (followed : List ObjId) (src : Src) (o : Obj),
+    unseen defs followed < f1 → unseen defs followed < f2 →
+    resolveLoop defs f1 followed src o = resolveLoop defs f2 followed src o := by
+  intro f1
+  induction f1 with
+  | zero => intro _ _ _ _ h; omega
+  | succ f ih =>
+    intro f2 followed src o h1 h2
+    cases f2 with
+    | zero => omega
+    | succ g2 =>
+      unfold resolveLoop
+      split
+      · rename_i n g
+        split
+        · rfl
+        · rename_i hc
+          split
+          · rfl
+          · rename_i o' hl
+            have hc' : followed.contains (n, g) = false := by simpa using hc
+            have := unseen_cons_lt (lookup_some_mem hl) hc'
+            exact ih _ _ _ _ (by omega) (by omega)
+      · rfl
+
+/-- **dom_terminates, part 1** (`resolve_chain`): the loop body runs at most `|defs| + 1` times
+    (at most `|defs|` links are followed): with any budget of at least `|defs| + 1` iterations the
+    result is the one `resolveChain` computes, and it is never the out-of-fuel outcome. -/
+theorem resolve_fuel_sufficient (defs : Defs) (o : Obj) (fuel : Nat) (h : defs.length + 1 ≤ fuel) :
+    resolveLoop defs fuel [] .inline o = resolveChain defs o ∧
+    (∀ p, resolveChain defs o ≠ .panic p) ∧ (∀ e, resolveChain defs o ≠ .err e) := by
+  have hu := unseen_le defs []
+  refine ⟨?_, ?_, ?_⟩
+  · exact resolveLoop_fuel_indep defs _ _ _ _ _ (by omega) (by omega)
+  · intro p; exact resolveLoop_ne_panic defs _ _ _ _ _ (by omega)
+  · intro e; exact resolveLoop_ne_err defs _ _ _ _ _
+
+example : resolveChain [((5, 0), .ref 5 0)] (.ref 5 0) = .ok none := by rfl
+example : resolveChain [((5, 0), .ref 6 0), ((6, 0), .int 3)] (.ref 5 0) = .ok (some (.byId (6, 0), .int 3)) := by
+  rfl
+
+theorem resolveChain_ne_panic (defs : Defs) (o : Obj) (p : String) : resolveChain defs o ≠ .panic p :=
+  (resolve_fuel_sufficient defs o _ (Nat.le_refl _)).2.1 p
+
+/-- what `resolve_chain` returns is never itself a reference -/
+theorem resolveLoop_not_ref (defs : Defs) : ∀ (fuel : Nat) (followed : List ObjId) (src s : Src) (o v : Obj),
+    resolveLoop defs fuel followed src o = .ok (some (s, v)) → ∀ n g, v ≠ .ref n g := by
+  intro fuel
+  induction fuel with
+  | zero => intro _ _ _ _ _ h; simp [resolveLoop] at h
+  | succ f ih =>
+    intro followed src s o v h
+    unfold resolveLoop at h
+    split at h
+    · split at h
+      · simp at h
+      · split at h
+        · simp at h
+        · exact ih _ _ _ _ _ h
+    · rename_i hnr
+      simp at h
+      intro n g hv
+      exact hnr n g (by rw [← hv]; exact h.2)
+
+/-! ## C. no converter panics -/
+
+theorem getChainResolvedDict_np (defs : Defs) (d : Kvs) (k : Bytes) (p : String) :
+    getChainResolvedDict defs d k ≠ .panic p := by
+  unfold getChainResolvedDict
+  split
+  · simp
+  · split <;> simp_all [resolveChain_ne_panic]
+
+theorem toEncoding_np (defs : Defs) (o : Obj) (p : String) : toEncoding defs o ≠ .panic p := by
+  unfold toEncoding
+  split <;> (try split) <;> (try split) <;> (try split) <;> (try split) <;> simp_all [resolveChain_ne_panic]
+
+theorem toFontDescrEntry_np (defs : Defs) (dom : Dom) (d : Kvs) (p : String) :
+    toFontDescrEntry defs dom d ≠ .panic p := by
+  unfold toFontDescrEntry
+  split <;> (try split) <;> (try split) <;> (try split) <;> simp_all
+
+theorem toFontDict_np (defs : Defs) (dom : Dom) (d : Kvs) (p : String) :
+    toFontDict defs dom d ≠ .panic p := by
+  unfold toFontDict
+  split
+  · simp
+  · split
+    · simp
+    · split
+      · simp_all [toFontDescrEntry_np]
+      · simp
+      · split
+        · simp
+        · split <;> simp_all [toEncoding_np]
+
+theorem objToFontDict_np (defs : Defs) (dom : Dom) (o : Obj) (p : String) :
+    objToFontDict defs dom o ≠ .panic p := by
+  unfold objToFontDict
+  split <;> simp_all [toFontDict_np]
+
+theorem fontLoop_np (defs : Defs) : ∀ (kvs : Kvs) (dom : Dom) (fonts : List (Bytes × FontDict)) (p : String),
+    fontLoop defs kvs dom fonts ≠ .panic p := by
+  intro kvs
+  induction kvs with
+  | nil => intro _ _ _; simp [fontLoop]
+  | cons e t ih =>
+    intro dom fonts p
+    obtain ⟨frn, fr⟩ := e
+    unfold fontLoop
+    split
+    · split
+      · simp
+      · split
+        · simp_all [objToFontDict_np]
+        · simp
+        · exact ih _ _ _
+    · split
+      · simp_all [toFontDict_np]
+      · simp
+      · exact ih _ _ _
+    · simp
+
+theorem toResourceFontValue_np (defs : Defs) (dom : Dom) (o : Obj) (p : String) :
+    toResourceFontValue defs dom o ≠ .panic p := by
+  unfold toResourceFontValue
+  split
+  · simp_all [resolveChain_ne_panic]
+  · simp
+  · split <;> simp
+  · exact fontLoop_np _ _ _ _ _
+  · simp
+
+theorem resLoop_np (defs : Defs) : ∀ (kvs : Kvs) (dom : Dom) (f : Option (List (Bytes × FontDict))) (p : String),
+    resLoop defs kvs dom f ≠ .panic p := by
+  intro kvs
+  induction kvs with
+  | nil => intro _ _ _; simp [resLoop]
+  | cons e t ih =>
+    intro dom f p
+    obtain ⟨k, v⟩ := e
+    unfold resLoop
+    split
+    · split
+      · simp_all [toResourceFontValue_np]
+      · simp
+      · exact ih _ _ _
+    · exact ih _ _ _
+
+theorem toResources_np (defs : Defs) (dom : Dom) (rd : Kvs) (p : String) :
+    toResources defs dom rd ≠ .panic p := by
+  unfold toResources
+  split <;> simp_all [resLoop_np]
+
+theorem ownResources_np (defs : Defs) (dom : Dom) (d : Kvs) (p : String) :
+    ownResources defs dom d ≠ .panic p := by
+  unfold ownResources
+  split
+  · simp_all [getChainResolvedDict_np]
+  · simp
+  · simp
+  · split <;> simp_all [toResources_np]
+
+theorem toPageKids_np (defs : Defs) (q : ConvQ) (r : Option Resources) (o : Obj) (p : String) :
+    toPageKids defs q r o ≠ .panic p := by
+  unfold toPageKids
+  split <;> simp_all [resolveChain_ne_panic]
+
+theorem toRootPageTreeNode_np (defs : Defs) (q : ConvQ) (dom : Dom) (o : Obj) (p : String) :
+    toRootPageTreeNode defs q dom o ≠ .panic p := by
+  unfold toRootPageTreeNode
+  split
+  · split
+    · simp_all [ownResources_np]
+    · simp
+    · split
+      · simp
+      · split
+        · simp
+        · split <;> simp_all [toPageKids_np]
+  · simp
+
+theorem toPageTreeNode_np (defs : Defs) (q : ConvQ) (dom : Dom) (r : Option Resources) (o : Obj) (p : String) :
+    toPageTreeNode defs q dom r o ≠ .panic p := by
+  unfold toPageTreeNode
+  split
+  · split
+    · simp
+    · split
+      · simp_all [ownResources_np]
+      · simp
+      · simp only []
+        split
+        · simp
+        · split
+          · simp
+          · split <;> simp_all [toPageKids_np]
+  · simp
+
+theorem toPageContent_np (defs : Defs) (o : Obj) (p : String) : toPageContent defs o ≠ .panic p := by
+  unfold toPageContent
+  split <;> simp_all [resolveChain_ne_panic]
+
+theorem contentsLoop_np (defs : Defs) : ∀ (xs : List Obj) (v : List (Src × Obj)) (p : String),
+    contentsLoop defs xs v ≠ .panic p := by
+  intro xs
+  induction xs with
+  | nil => intro _ _; simp [contentsLoop]
+  | cons x t ih =>
+    intro v p
+    unfold contentsLoop
+    split
+    · simp_all [toPageContent_np]
+    · simp
+    · simp
+    · exact ih _ _
+
+theorem toPageContents_np (defs : Defs) (o : Obj) (p : String) : toPageContents defs o ≠ .panic p := by
+  unfold toPageContents
+  split
+  · simp_all [resolveChain_ne_panic]
+  · simp
+  · simp
+  · simp
+  · exact contentsLoop_np _ _ _ _
+  · simp
+
+theorem toPage_np (defs : Defs) (dom : Dom) (r : Option Resources) (o : Obj) (p : String) :
+    toPage defs dom r o ≠ .panic p := by
+  unfold toPage
+  split
+  · split
+    · simp
+    · split
+      · simp_all [ownResources_np]
+      · simp
+      · simp only []
+        split
+        · simp
+        · split <;> simp_all [toPageContents_np]
+  · simp
+
+theorem toCatalog_np (defs : Defs) (q : ConvQ) (dom : Dom) (o : Obj) (p : String) :
+    toCatalog defs q dom o ≠ .panic p := by
+  unfold toCatalog
+  split
+  · split
+    · split
+      · exact toRootPageTreeNode_np _ _ _ _ _
+      · simp
+    · simp
+  · simp
+
+theorem domStep_np (defs : Defs) (q : ConvQ) (dom : Dom) (id : ObjId) (r : Option Resources) (o : Obj)
+    (p : String) : domStep defs q dom id r o ≠ .panic p := by
+  unfold domStep
+  split
+  · split
+    · split
+      · split <;> simp_all [toPageTreeNode_np]
+      · split
+        · split <;> simp_all [toPage_np]
+        · simp
+    · simp
+  · simp
+
+/-! ## D. the work loop terminates: every identifier is queued at most once -/
+
+/-- queue length + definitions not yet examined -/
+def qMeasure (defs : Defs) (q : ConvQ) : Nat := q.nodes.length + unseen defs q.examined
+
+theorem add_measure {defs : Defs} {id : ObjId} {o : Obj} (q : ConvQ) (r : Option Resources)
+    (h : lookup defs id = some o) : qMeasure defs (q.add id r o) ≤ qMeasure defs q := by
+  unfold ConvQ.add
+  split
+  · exact Nat.le_refl _
+  · rename_i hc
+    have hc' : q.examined.contains id = false := by simpa using hc
+    have := unseen_cons_lt (lookup_some_mem h) hc'
+    simp only [qMeasure, List.length_append, List.length_cons, List.length_nil]
+    omega
+
+theorem kidsLoop_measure (defs : Defs) (r : Option Resources) : ∀ (xs : List Obj) (q : ConvQ) (kids : List ObjId),
+    qMeasure defs (kidsLoop defs r xs q kids).1 ≤ qMeasure defs q := by
+  intro xs
+  induction xs with
+  | nil => intro q kids; simp [kidsLoop]
+  | cons x t ih =>
+    intro q kids
+    cases x with
+    | ref n g =>
+      simp only [kidsLoop]
+      split
+      · rename_i o hl
+        exact Nat.le_trans (ih _ _) (add_measure q r hl)
+      · exact ih _ _
+    | _ => simp only [kidsLoop]; exact ih _ _
+
+theorem toPageKids_measure {defs : Defs} {q q' : ConvQ} {r : Option Resources} {o : Obj}
+    {k : Option (List ObjId)} (h : toPageKids defs q r o = .ok (q', k)) :
+    qMeasure defs q' ≤ qMeasure defs q := by
+  unfold toPageKids at h
+  split at h
+  · simp at h
+  · simp at h
+  · simp at h; rw [← h.1]; exact Nat.le_refl _
+  · rename_i xs _
+    simp at h
+    rw [← h.1]
+    exact kidsLoop_measure defs r xs q []
+  · simp at h; rw [← h.1]; exact Nat.le_refl _
+
+theorem toRootPageTreeNode_measure {defs : Defs} {q q' : ConvQ} {dom dom' : Dom} {o : Obj} {n : RootNode}
+    (h : toRootPageTreeNode defs q dom o = .ok (q', dom', n)) : qMeasure defs q' ≤ qMeasure defs q := by
+  unfold toRootPageTreeNode at h
+  split at h
+  · split at h
+    · simp at h
+    · simp at h
+    · split at h
+      · simp at h
+      · split at h
+        · simp at h
+        · split at h
+          · simp at h
+          · simp at h
+          · simp at h
+          · rename_i hk
+            simp at h
+            rw [← h.1]
+            exact toPageKids_measure hk
+  · simp at h
+
+theorem toPageTreeNode_measure {defs : Defs} {q q' : ConvQ} {dom dom' : Dom} {r : Option Resources} {o : Obj}
+    {n : TreeNode} (h : toPageTreeNode defs q dom r o = .ok (q', dom', n)) :
+    qMeasure defs q' ≤ qMeasure defs q := by
+  unfold toPageTreeNode at h
+  split at h
+  · split at h
+    · simp at h
+    · split at h
+      · simp at h
+      · simp at h
+      · simp only [] at h
+        split at h
+        · simp at h
+        · split at h
+          · simp at h
+          · split at h
+            · simp at h
+            · simp at h
+            · simp at h
+            · rename_i hk
+              simp at h
+              rw [← h.1]
+              exact toPageKids_measure hk
+  · simp at h
+
+theorem toCatalog_measure {defs : Defs} {q q' : ConvQ} {dom dom' : Dom} {o : Obj} {n : RootNode}
+    (h : toCatalog defs q dom o = .ok (q', dom', n)) : qMeasure defs q' ≤ qMeasure defs q := by
+  unfold toCatalog at h
+  split at h
+  · split at h
+    · split at h
+      · exact toRootPageTreeNode_measure h
+      · simp at h
+    · simp at h
+  · simp at h
+
+theorem domStep_measure {defs : Defs} {q q' : ConvQ} {dom dom' : Dom} {id : ObjId} {r : Option Resources}
+    {o : Obj} (h : domStep defs q dom id r o = .ok (q', dom')) : qMeasure defs q' ≤ qMeasure defs q := by
+  unfold domStep at h
+  split at h
+  · split at h
+    · split at h
+      · split at h
+        · simp at h
+        · simp at h
+        · rename_i hn
+          simp at h
+          rw [← h.1]
+          exact toPageTreeNode_measure hn
+      · split at h
+        · split at h
+          · simp at h
+          · simp at h
+          · simp at h; rw [← h.1]; exact Nat.le_refl _
+        · simp at h
+    · simp at h
+  · simp at h
+
+theorem domLoop_ne_panic (defs : Defs) : ∀ (fuel : Nat) (q : ConvQ) (dom : Dom) (p : String),
+    qMeasure defs q < fuel → domLoop defs fuel q dom ≠ .panic p := by
+  intro fuel
+  induction fuel with
+  | zero => intro _ _ _ h; omega
+  | succ f ih =>
+    intro q dom p h
+    unfold domLoop
+    split
+    · simp
+    · rename_i hne
+      split
+      · rename_i hnil
+        simp [hnil] at hne
+      · rename_i id r o rest hq
+        split
+        · rename_i hs
+          exact absurd hs (domStep_np _ _ _ _ _ _ _)
+        · simp
+        · rename_i q' dom' hs
+          have hm := domStep_measure hs
+          apply ih
+          simp only [qMeasure, hq, List.length_cons] at h hm ⊢
+          omega
+
+theorem domLoop_fuel_indep (defs : Defs) : ∀ (f1 f2 : Nat) (q : ConvQ) (dom : Dom),
+    qMeasure defs q < f1 → qMeasure defs q < f2 → domLoop defs f1 q dom = domLoop defs f2 q dom := by
+  intro f1
+  induction f1 with
+  | zero => intro _ _ _ h; omega
+  | succ f ih =>
+    intro f2 q dom h1 h2
+    cases f2 with
+    | zero => omega
+    | succ g2 =>
+      unfold domLoop
+      split
+      · rfl
+      · split
+        · rfl
+        · rename_i id r o rest hq
+          split
+          · rfl
+          · rfl
+          · rename_i q' dom' hs
+            have hm := domStep_measure hs
+            apply ih
+            · simp only [qMeasure, hq, List.length_cons] at h1 hm ⊢; omega
+            · simp only [qMeasure, hq, List.length_cons] at h2 hm ⊢; omega
+
+theorem catalog_measure_le {defs : Defs} {q : ConvQ} {dom : Dom} {o : Obj} {n : RootNode}
+    (h : toCatalog defs {} {} o = .ok (q, dom, n)) : qMeasure defs q ≤ defs.length := by
+  have := toCatalog_measure h
+  have hu := unseen_le defs []
+  simp only [qMeasure, List.length_nil] at this ⊢
+  omega
+
+/-- **dom_never_panics**: `to_page_dom` never reaches `q.next().unwrap()` on an empty queue and
+    never runs out of the loop budgets `|defs| + 1` (resolve_chain, work loop). -/
+theorem dom_never_panics (defs : Defs) (cat : Obj) (p : String) : toPageDom defs cat ≠ .panic p := by
+  unfold toPageDom toPageDomFuel
+  split
+  · rename_i h; exact absurd h (toCatalog_np _ _ _ _ _)
+  · simp
+  · rename_i q dom root h
+    have hm := catalog_measure_le h
+    split
+    · rename_i hl
+      exact absurd hl (domLoop_ne_panic defs _ _ _ _ (by omega))
+    · simp
+    · simp
+
+/-- **dom_terminates**: the work loop runs at most `|defs| + 1` times (each identifier is queued at
+    most once, and only defined identifiers are queued): any budget of at least `|defs| + 1`
+    iterations gives the result of `to_page_dom`, which is not the out-of-fuel outcome.
+    (Reference chains: `resolve_fuel_sufficient`.) -/
+theorem dom_terminates (defs : Defs) (cat : Obj) (fuel : Nat) (h : defs.length + 1 ≤ fuel) :
+    toPageDomFuel defs fuel cat = toPageDom defs cat ∧ ∀ p, toPageDom defs cat ≠ .panic p := by
+  refine ⟨?_, dom_never_panics defs cat⟩
+  unfold toPageDom toPageDomFuel
+  split
+  · rfl
+  · rfl
+  · rename_i q dom root hc
+    have hm := catalog_measure_le hc
+    rw [domLoop_fuel_indep defs fuel (defs.length + 1) q dom (by omega) (by omega)]
+
 end Parsley.C11
